@@ -123,6 +123,10 @@ def check_terminate(u):
         u.cover("Unbounded")
         return
     u.ensure(res is None, "otherwise=>None")
+    # the gate lets the loop go on only for a problem with at least one (internal) variable: with n == 0 every
+    # residual over the variables is an empty maximum, so the point is Optimal or locally infeasible.  This is the
+    # precondition n >= 1 of everything a step computation calls (e.g. the reductions in compute_tau).
+    u.ensure(n >= 1, "no_status=>the_problem_has_at_least_one_variable", props=["C02", "C06"])
     u.cover("None")
 
 
